@@ -101,6 +101,13 @@ def instances(tier, seed):
                     h = Hsym[n % len(Hsym)]
                 add(fam.with_horizon(s, h), Cfg(method, N=N, M=M, intg=intg or 'rk', grid=g, degree=degree, scheme=scheme))
                 n += 1
+    # a constraint that is trivially true once the (numeric) horizon is filled in is declared FIRST: the scales of the later constraints stay their own
+    from ..dsl import T as T_
+    for mi, (method, intg) in enumerate((('MS', 'rk'), ('DC', None), ('SS', 'rk'))):
+        s = scaled_models()[0]
+        s.cons = [Con('>=', T_, Fr(1, 4))] + list(s.cons)
+        s.note = (s.note or '') + ' + trivially true first constraint'
+        add(fam.with_horizon(s, (('num', Fr(1, 2)), ('num', Fr(2)))), Cfg(method, N=2, M=[1, 2][mi % 2], intg=intg or 'rk', grid=fam.G_UNI, degree=2, scheme='radau'))
     # seeded random scaled problems: random model, random scales on states/controls/algebraics/derivatives/variables and on every constraint
     from .. import randspec
     rr = random.Random(seed * 7919 + 1414)
